@@ -427,22 +427,44 @@ template <std::size_t I, class Allocator, class... Parameter>
 template <std::size_t I, class Allocator, class... Parameter>
 [[nodiscard]] constexpr decltype(auto) get(cntgs::BasicContiguousElement<Allocator, Parameter...>&& element) noexcept
 {
-    return std::move(cntgs::get<I>(element.reference_));
+    if constexpr (std::is_reference_v<decltype(cntgs::get<I>(element.reference_))>)
+    {
+        return std::move(cntgs::get<I>(element.reference_));
+    }
+    else
+    {
+        // a span is returned by value
+        return cntgs::get<I>(element.reference_);
+    }
 }
 
 template <std::size_t I, class Allocator, class... Parameter>
 [[nodiscard]] constexpr decltype(auto) get(
     const cntgs::BasicContiguousElement<Allocator, Parameter...>&& element) noexcept
 {
-    return detail::as_const(std::move(cntgs::get<I>(element.reference_)));
+    if constexpr (std::is_reference_v<decltype(cntgs::get<I>(element.reference_))>)
+    {
+        return std::move(detail::as_const(cntgs::get<I>(element.reference_)));
+    }
+    else
+    {
+        return detail::as_const(cntgs::get<I>(element.reference_));
+    }
 }
 }  // namespace cntgs
 
 namespace std
 {
+// the types get<I> yields without their reference: T and Span<T>, const T and Span<const T> for a const element
 template <std::size_t I, class Allocator, class... Parameter>
 struct tuple_element<I, ::cntgs::BasicContiguousElement<Allocator, Parameter...>>
-    : std::tuple_element<I, decltype(::cntgs::BasicContiguousElement<Allocator, Parameter...>::reference_)>
+    : std::remove_reference<std::tuple_element_t<I, ::cntgs::BasicContiguousReference<false, Parameter...>>>
+{
+};
+
+template <std::size_t I, class Allocator, class... Parameter>
+struct tuple_element<I, const ::cntgs::BasicContiguousElement<Allocator, Parameter...>>
+    : std::remove_reference<std::tuple_element_t<I, ::cntgs::BasicContiguousReference<true, Parameter...>>>
 {
 };
 
